@@ -32,13 +32,14 @@ fn space_for(tier: Tier) -> (Space, usize) {
     let mut s = Space::new();
     match tier {
         Tier::Quick => {
-            s.ast("GC", 6, 64).ast("K", 5, 64).ast("U", 4, 64).ast("NEST", 7, 64).ast("CAPQ", 5, 64).ast("ALTC", 6, 64);
+            s.ast("GC", 6, 64).ast("K", 5, 64).ast("U", 4, 64).ast("NEST", 7, 64).ast("CAPQ", 5, 64).ast("ALTC", 6, 64).ast("NESTN", 4, 64).ast("BR3", 5, 64);
             s.ast_range("GCM", 1, 5, 64, 1).ast_range("GCE", 1, 4, 64, 1);
             s.list("ladder", LADDER.len() as u64, 1);
             (s, 4)
         }
         Tier::Thorough => {
             s.ast("GC", 6, 64).ast("K", 5, 64).ast("U", 4, 64).ast("NEST", 7, 64).ast("CAPQ", 5, 64).ast("ALTC", 6, 64);
+            s.ast("NESTN", 5, 64).ast("BR3", 5, 64);
             s.ast_range("GCM", 1, 5, 64, 1).ast_range("GCE", 1, 4, 64, 1);
             // deeper layers restricted (by the shape of the pattern, decided by the
             // reference parser) to patterns without a group inside a repetition
@@ -212,6 +213,36 @@ fn judge(check_out: &mut ChunkOut, ctx: &Ctx, scope: &str, text: &str, flags: &s
                             check_out.fail("C03", &case, "GroupNestingWrong", &format!("group {} nested inside an ancestor (parent {})", nr, parsed.parent[*nr]), &shown, "");
                             structural_ok = false;
                             break;
+                        }
+                    }
+                    // without a group inside a repetition every group participates at most
+                    // once, so a participating group lies inside the participation of every
+                    // participating ancestor: its entry must sit directly inside the entry of
+                    // its nearest ancestor that has one
+                    if structural_ok && !parsed.ast.has_group_in_rep() {
+                        for (nr, _, _, enc) in &flat {
+                            if caps[*nr].is_none() {
+                                continue;
+                            }
+                            let mut q = parsed.parent[*nr];
+                            while q != 0 && !flat.iter().any(|x| x.0 == q) {
+                                q = parsed.parent[q];
+                            }
+                            if q != 0 && caps[q].is_none() {
+                                continue;
+                            }
+                            if *enc != q {
+                                check_out.fail(
+                                    "C03",
+                                    &case,
+                                    "GroupNestingWrong",
+                                    &format!("group {} directly inside the entry of group {} (0 = the match)", nr, q),
+                                    &format!("inside {} in {}", enc, shown),
+                                    "nearest ancestor with an entry",
+                                );
+                                structural_ok = false;
+                                break;
+                            }
                         }
                     }
                     if !structural_ok {
